@@ -207,7 +207,7 @@ func negotiateFeatures(ctx context.Context, s *Session, first, ws bool, features
 			// informational only and not meant to be negotiated: error.
 			_, negotiated := s.negotiated[start.Name.Space]
 			data, sent = list.cache[start.Name.Space]
-			if !sent || negotiated || data.feature.Negotiate == nil {
+			if !sent || negotiated || data.feature.Negotiate == nil || !prerequisites(s, data.feature) {
 				// TODO: What should we return here?
 				return mask, rw, stream.PolicyViolation
 			}
@@ -242,6 +242,11 @@ func negotiateFeatures(ctx context.Context, s *Session, first, ws bool, features
 					if _, ok := s.negotiated[v.feature.Name.Space]; ok || v.feature.Negotiate == nil {
 						// If this feature has already been negotiated, or is informational
 						// only with no negotiation, skip it.
+						continue
+					}
+					if !prerequisites(s, v.feature) {
+						// A feature negotiated since the list was read changed the state
+						// so that this one is not allowed anymore.
 						continue
 					}
 
@@ -285,6 +290,12 @@ func negotiateFeatures(ctx context.Context, s *Session, first, ws bool, features
 	}
 
 	return mask, rw, err
+}
+
+// prerequisites reports whether all the necessary bits of the feature are set
+// and none of the prohibited bits are set in the current session state.
+func prerequisites(s *Session, feature StreamFeature) bool {
+	return s.state&feature.Necessary == feature.Necessary && s.state&feature.Prohibited == 0
 }
 
 type sfData struct {
